@@ -637,16 +637,40 @@ func c11Alias(w *World, r *Report) {
 		}
 	}
 	// returns the address of a local copy
-	retLocal := false
+	retLocal, nret := true, 0
+	var fresh func(v ssa.Value, d int) bool
+	fresh = func(v ssa.Value, d int) bool {
+		switch x := v.(type) {
+		case *ssa.Alloc:
+			return true
+		case *ssa.Phi:
+			if d > 6 {
+				return false
+			}
+			for _, e := range x.Edges {
+				if !isNilConst(e) && !fresh(e, d+1) {
+					return false
+				}
+			}
+			return true
+		}
+		return false
+	}
 	for _, b := range fn.Blocks {
 		if len(b.Instrs) == 0 {
 			continue
 		}
 		if ret, ok := b.Instrs[len(b.Instrs)-1].(*ssa.Return); ok && !isNilConst(ret.Results[0]) {
-			_, retLocal = ret.Results[0].(*ssa.Alloc)
+			nret++
+			if !fresh(ret.Results[0], 0) { // the chart handed out is never the loaded one itself: one loaded chart may satisfy several declarations
+				retLocal = false
+				if bad == "" {
+					bad = w.InstrPos(ret)
+				}
+			}
 		}
 	}
-	r.Check(bad == "" && retLocal && stores > 0, "C11/ALIAS", "getAliasDependency", w.Pos(fn.Pos()), "all writes go to the local copies of the chart and its metadata, and the copy is returned", "the aliasing writes into the original chart/metadata (at "+bad+") or does not return a copy")
+	r.Check(bad == "" && retLocal && nret > 0 && stores > 0, "C11/ALIAS", "getAliasDependency", w.Pos(fn.Pos()), "all writes go to the local copies of the chart and its metadata, and the copy is returned", "the aliasing writes into the original chart/metadata (at "+bad+") or does not return a copy")
 }
 
 // c11NameInPath: Values.Table and Values.PathValue split their argument at dots. Chart names,
